@@ -36,4 +36,6 @@ def run(ctx):
     parallel.cache_discipline(ctx, 'C07', 'solve::external::recurse_regret')
     parallel.task_closure(ctx, 'C07', 'external::single_player_iter', 'recurse_regret')
     parallel.parallel_effects(ctx, 'C07', ['external::single_player_iter', 'vanilla::solve_generic_multi'])
+    parallel.child_reach_fresh(ctx, 'C07', ['solve::vanilla::thread_threshold'])
+    parallel.frontier_reach_form(ctx, 'C07')
     parallel.no_unsafe(ctx, 'C07')
